@@ -638,7 +638,7 @@ pub fn gen(g: &mut Gen) {
         }
     }
     // 1. well-formed save-style documents x layouts x encodings x target types
-    let n = g.budget(7_000, 120_000);
+    let n = g.budget(30_000, 300_000);
     let cfg = DocCfg::save_style();
     for i in 0..n {
         let mut doc = gen_doc(&mut g.rng, &cfg);
@@ -656,7 +656,7 @@ pub fn gen(g: &mut Gen) {
         }
     }
     // 2. documents with operators: Property capture (operators on any field, first fields included since the F9 repair)
-    let n = g.budget(1_500, 25_000);
+    let n = g.budget(6_000, 60_000);
     let cfg_ops = DocCfg { operators: true, ..DocCfg::save_style() };
     for _ in 0..n {
         let mut doc = gen_doc(&mut g.rng, &cfg_ops);
@@ -675,7 +675,7 @@ pub fn gen(g: &mut Gen) {
         emit_pair(g, enc, &ty, &data, expect.as_deref());
     }
     // 3. malformed stream: mutations of rendered documents, random text; no expectation, correspondence only
-    let n = g.budget(3_000, 50_000);
+    let n = g.budget(12_000, 120_000);
     for _ in 0..n {
         let doc = gen_doc(&mut g.rng, &DocCfg { max_fields: 4, ..DocCfg::text_full() });
         let base = render_layout(&mut g.rng, &LayoutCfg::reader_safe(), &lexemes(&doc));
@@ -687,7 +687,7 @@ pub fn gen(g: &mut Gen) {
         emit_pair(g, enc, &ty, &data, None);
     }
     // 4. real derived structs against the Ty interpreter
-    let n = g.budget(1_500, 20_000);
+    let n = g.budget(5_000, 50_000);
     for i in 0..n {
         let enc = if i % 2 == 0 { Enc::W } else { Enc::U };
         if i % 4 == 3 {
